@@ -34,12 +34,14 @@ def _shares(a, b):
 
 
 class Slot(object):
-    __slots__ = ("tt", "snap", "prov")
+    __slots__ = ("tt", "snap", "prov", "serial", "ancestors")
 
-    def __init__(self, tt, snap, prov):
+    def __init__(self, tt, snap, prov, serial=0, ancestors=frozenset()):
         self.tt = tt
         self.snap = snap
         self.prov = prov
+        self.serial = serial            # monotonically increasing object number (never an id(): ids are reused)
+        self.ancestors = ancestors      # serials of the objects this one was computed from (transitively)
 
 
 class Run(object):
@@ -62,6 +64,7 @@ class Run(object):
         self.op_names = []
         self.edge_shapes = set()
         self._kev = []
+        self._serial = 0
 
     # ------------------------------------------------------------------ pool helpers
     def _live_buffers(self):
@@ -116,7 +119,7 @@ class Run(object):
                 out.append(ci)
         return out
 
-    def _store(self, dest, tt, prov):
+    def _store(self, dest, tt, prov, ancestors=frozenset()):
         snap = M.Snapshot(tt)
         if not snap.finite:
             self.probes["result_not_finite_not_stored"] += 1
@@ -126,7 +129,8 @@ class Run(object):
             return False
         if self.slots[dest] is not None:
             self._drop(dest)
-        self.slots[dest] = Slot(tt, snap, prov)
+        self._serial += 1
+        self.slots[dest] = Slot(tt, snap, prov, self._serial, frozenset(ancestors))
         self._refresh_edges(dest, prov)
         self.log.add("store", dest, prov, snap.meta, arr_digest(snap.dense))
         return True
@@ -231,6 +235,19 @@ class Run(object):
         if target is not None and any(target in k for k in pre_edges):
             self.nontrivial = True
             self.probes["inplace_op_on_sharing_object"] += 1
+        if target is not None:
+            tgt = self.slots[target]
+            kin = [j for j in self.live() if j != target and (self.slots[j].serial in tgt.ancestors or
+                                                             tgt.serial in self.slots[j].ancestors)]
+            if kin:
+                # the scenario the property is about: a result is mutated in place while an operand it was computed
+                # from (or a result computed from it) is still live
+                self.nontrivial = True
+                self.probes["inplace_op_with_live_relative"] += 1
+        anc = set()
+        for j in flat_roles.values():
+            anc.add(self.slots[j].serial)
+            anc |= self.slots[j].ancestors
         g = np_gen(rec.get("sub_seed", 0))
         np.random.seed(rec.get("sub_seed", 0) % (2 ** 32))
         if rec.get("clock_seed") is not None:
@@ -299,7 +316,7 @@ class Run(object):
             if not dests:
                 self.probes["result_not_stored_no_dest"] += 1
                 continue
-            self._store(dests.pop(0), t, api)
+            self._store(dests.pop(0), t, api, anc)
         self.state_keys.add(self._abstract_state(name))
         for k, v in self.edges.items():
             self.edge_shapes.add(v)
@@ -1385,7 +1402,8 @@ RULE = ("one history = 3-40 seeded API calls over a pool of up to 6 live tensor 
         "configuration (order 1-4, mode sizes 1-4, rank palette with many rank-1 bonds, real/complex, seven memory layouts, "
         "op-group weights, fault kinds and rates). After EVERY call all live objects are compared with their dense snapshots. "
         "A history is NON-TRIVIAL if an in-place op ran on an object that shared a buffer with another live object at that "
-        "moment, or a fault fired in it; DISTINCT by (op-name sequence, producers of the sharing edges seen, fault kinds fired).")
+        "moment, or on an object while an operand it was computed from / a result computed from it was still live, or a "
+        "fault fired in it; DISTINCT by (op-name sequence, producers of the sharing edges seen, fault kinds fired).")
 COMPONENTS = {
     "real": ["scikit_tt.tensor_train (whole TT API)", "scikit_tt.solvers.sle / evp / ode", "scikit_tt.data_driven.tdmd",
              "scikit_tt.utils (progress output, truncated_svd)", "NumPy", "SciPy/LAPACK/ARPACK behind pass-through kernel wrappers"],
@@ -1398,6 +1416,12 @@ def simplifier(rec):
     from .minimise import generic_simplifier
     out = generic_simplifier(rec)
     return out
+
+
+def evidence_extra(total):
+    ex = total["extra"]
+    return {"op_mix_runs_containing": {k[3:]: v for k, v in sorted(ex.items()) if k.startswith("op:")},
+            "ops_that_raised_any_reason": int(ex.get("ops_raised", 0)), "clock_jumps_injected": int(ex.get("clock_jumps", 0))}
 
 
 def run_one(prop, seed, faults, want_events=False):
